@@ -243,6 +243,18 @@ def gen(rng, tier):
         # different parametric kind
         B = base_shape(rng, kind=rng.choice([k for k in 'CSV' if k != A['kind']]), rat=A['rat'])
         out.append(mk_case(A, B, 'kind'))
+        # different parametric kind, but the lower-dimensional shape carries the LEADING data of the other one (first direction(s),
+        # first control points): a comparison that walks over the shorter description must still say "unequal"
+        if A['kind'] in 'SV':
+            keep = rng.randint(1, pdim - 1)
+            B = clone(A); B['kind'] = 'CSV'[keep - 1]
+            B['deg'] = list(A['deg'][:keep]); B['kv'] = [list(k) for k in A['kv'][:keep]]; B['size'] = list(A['size'][:keep])
+            cnt = 1
+            for x in B['size']:
+                cnt *= x
+            B['P'] = [list(pt) for pt in A['P'][:cnt]]
+            if not (B['kind'] == 'S' and len(B['P'][0]) - (1 if B['rat'] else 0) < 3):
+                out.append(mk_case(A, B, 'kind'))
         # different point dimension (curves)
         if A['kind'] == 'C' and not A['rat']:
             B = clone(A); B['P'] = [pt + [F(0)] for pt in B['P']]
@@ -338,6 +350,21 @@ def oracle(c):
         return "a deep copy does not equal its source"
     if d['B'] is None and not (ab and ba):
         return "a deep copy does not equal its source"
+    # the copy is independent: editing it in place (through the lists its properties hand out) changes the copy only
+    fresh = build(d['A'])
+    pts = ca.ctrlptsw if ca.rational else ca.ctrlpts
+    pts[len(pts) // 2][0] = pts[len(pts) // 2][0] + 3
+    if not (a == fresh) or not (fresh == a):
+        return "editing a deep copy in place (a control point coordinate) changed its source"
+    if (ca == a) or (a == ca):
+        return "a deep copy whose control point was then moved by 3 still equals its source"
+    cb = copy.deepcopy(a)
+    kv = cb.knotvector if cb.pdimension == 1 else cb.knotvector[-1]
+    kv[-1] = kv[-1] + 3
+    if not (a == fresh) or not (fresh == a):
+        return "editing a deep copy in place (a knot) changed its source"
+    if (cb == a) or (a == cb):
+        return "a deep copy whose last knot was then moved by 3 still equals its source"
     for got, (want, why), txt in ((ab, expected(sa, sb), 'a == b'), (ba, expected(sb, sa), 'b == a')):
         if want is not None and got != want:
             return "%s is %s although the shapes have %s (pair kind: %s)" % (txt, got, why, d['what'])
